@@ -99,6 +99,8 @@ FAMILIES = [
     ("lock-spin-try", 1, 2, 1, 1, [(0, None)], [["l:0", "u:0", "tl:1"], ["tl:0", "u:0", "l:1", "u:0"]]),
     ("two-lock-rollback", 1, 2, 1, 1, [(0, 1), (1, 0), (0, 0), (None, 1)],
      [["lt:0", "ut:0", "lt:2"], ["lt:1", "ut:0", "lt:3", "ut:0"]]),
+    ("setter-order", 1, 2, 1, 1, [("r0", 1), ("r1", 1), ("r0", 0)],
+     [["lt:0", "ut:0", "lt:2", "a:0:1"], ["lt:1", "ut:0", "p:0", "lt:2"]]),
     ("queue-add-pop", 1, 2, 1, 1, [(0, 1), (1, None), (None, None)],
      [["a:0:0", "a:0:1", "p:0", "ut:0"], ["tp:0", "a:0:2", "p:0", "qs:0"]]),
     ("two-queues-shared-locks", 1, 2, 2, 1, [(0, 1), (1, 0)],
@@ -168,12 +170,28 @@ def rand_sched(rng, n, length):
 
 
 def rand_deps(rng, nlocks, ntasks):
+    """(x, y) = set_dependency(x); set_extra_dependency(y); x = "r<k>" = the two calls in the other order"""
     deps = []
     for _ in range(ntasks):
         a = rng.choice([None] + list(range(nlocks)) * 3)
         b = rng.choice([None, None] + list(range(nlocks)) * 2)
+        if a is not None and b is not None and rng.random() < 0.2:
+            a = "r%d" % a
         deps.append((a, b))
     return deps
+
+
+def setup_contract_lines():
+    """class-level contract of Task, single thread: every sequence of at most one set_dependency and one
+    set_extra_dependency call (both orders, resources 0/1, equal or different), with none / the first / the
+    second resource held by somebody else; then lock_dependency directly and through a queue"""
+    ops = []
+    for x in [None, 0, 1, "r0", "r1"]:
+        for y in [None, 0, 1]:
+            for pre in ([], ["tl:0"], ["tl:1"]):
+                prog = pre + ["lt:0", "ut:0", "a:0:0", "p:0", "ut:0", "a:0:0", "tp:0", "ut:0"]
+                ops.append(line(1, 2, 1, 1, [(x, y)], [prog], "X", "0"))
+    return ops
 
 
 def random_line(rng):
@@ -361,7 +379,9 @@ EXPECTED_TAGS = [
 
 
 def cmp(a, b, op):
-    return a == vlib.strip_branch(b)
+    # the implementation line may carry a " #CANDIDATE:…" tag (class-level contract of Task that fails
+    # for a setter order no call site uses): not part of the comparison
+    return vlib.strip_branch(a) == vlib.strip_branch(b)
 
 
 def run(ctx):
@@ -401,6 +421,7 @@ def run(ctx):
     corpus = vlib.corpus_ops("C08")
     if corpus:
         streams.append(("corpus", corpus))
+    streams.append(("task-setup-contract", setup_contract_lines()))
     streams.append(("exhaustive-2-threads", exhaustive(L)))
     rnd, kinds = [], {}
     for _ in range(ctx.budget(1500, 50000)):
@@ -425,6 +446,7 @@ def run(ctx):
     ctx.cov["random_kinds"] = kinds
     ctx.cov["tolerance"] = "exact (strings identical)"
     total, same = 0, 0
+    candidates = {}
     nontriv_tags = ("getCas>getInc", "getCheck>idle", "lockSpin>lockSpin", "tlBack", "tl0>popScan", "tl0>idle", "tl1>tlBack",
                     "addLock>addLock", "popLock>popLock", "tryPopLock>idle", "lfCas>lfCas", "lockTry>idle")
     expected = EXPECTED_TAGS + (EXPECTED_TAGS_INNER if inner else []) + (["freeYield>freeUnlock"] if ms_hook else [])
@@ -447,9 +469,19 @@ def run(ctx):
             if "STUCK" in ml:
                 ctx.branch("stuck-aborted")
             ctx.distinct(op, nontrivial=any(any(t.startswith(x) or x in t for x in nontriv_tags) for t in tags))
+        for op, il in zip(ops, impl):
+            if " #CANDIDATE:" in il:
+                for cnd in il.split(" #CANDIDATE:")[1].split(":"):
+                    key = cnd.split("(")[0]
+                    ent = candidates.setdefault(key, {"count": 0, "example_op": op[:300], "example": cnd})
+                    ent["count"] += 1
         if impl:
             ctx.sample({"stream": name, "op": ops[0], "impl": impl[0][:300]})
     ctx.cov["bit_exact_rate"] = (same / total) if total else 0.0
+    ctx.cov["candidate_findings"] = candidates
+    for k, v in sorted(candidates.items()):
+        ctx.notes.append("candidate finding (class-level contract of Task for a setter order no call site uses; not counted as a "
+                         "violation): %s x%d, e.g. %s" % (k, v["count"], v["example_op"]))
     missing = [t for t in expected if t not in ctx.cov["branch_histogram"]]
     ctx.cov["transitions_never_taken"] = missing
     if missing and ctx.thorough:
@@ -480,7 +512,10 @@ MANIFEST = dict(
           "worker-loop counter protocol hydro_counter / hydro_counter_zero (number_of_tasks is never 0 while a task is queued or running, once "
           "the initial loop is over). AtomicValue::max at the level of its load / compare-exchange / reload steps: max_monotone (never decreases, from "
           "any state), max_is_maximum (+max_general with pending calls). MemorySpace::free_buffer as wipe-then-release: owner_writes_only (while a thread "
-          "holds slot i no other thread writes buffer i) and handed_out_buffer_is_empty. No theorem is left _partial. Model tied to the "
+          "holds slot i no other thread writes buffer i) and handed_out_buffer_is_empty. Class-level contract of Task's setters (setupDeps models "
+          "set_dependency / set_extra_dependency in any call order): task_setup_contract (lock_dependency on free locks succeeds iff the first dependency "
+          "was set first or the two resources differ), duplicate_never_handed_out, extra_only_locks_nothing, lock_dependency_returns. No theorem is left "
+          "_partial. Model tied to the "
           "real containers by deterministic schedule replay of real std::threads through hook H1: returned values in schedule order and the "
           "final shared state identical, plus oracles on the implementation."),
     note=("Trusted: Lean kernel + 3 axioms; sequential consistency of C++11 seq_cst atomics assumed, not derived; non-atomic reads of "
@@ -498,7 +533,9 @@ MANIFEST = dict(
           "Likewise the order wipe-then-release inside MemorySpace::free_buffer: plain code after the last atomic operation cannot be separated by the "
           "baton scheduler; until patches/hook_c08_memoryspace.diff (one guarded yield between the two statements) is committed it is tied to the code by "
           "the oversubscribed buffer-hammer lines (owners stamp their buffers, check emptiness on hand-out and their stamp before release); with the "
-          "patch the deterministic buffer-reuse schedules place a switch there."),
+          "patch the deterministic buffer-reuse schedules place a switch there. Candidate findings (reported in evidence.candidate_findings, not "
+          "counted as violations because no call site uses these setter orders): set_extra_dependency(x) before set_dependency(x) makes a task that can "
+          "never be handed out; set_extra_dependency alone makes lock_dependency succeed without holding the declared resource."),
     technique=("Lean 4 proof: sum-over-threads invariants (frame lemma + local step lemma per program counter + omega, lifted by List.foldl "
                "induction), ownership-frame arguments from slot/lock uniqueness, solo-run inductions for progress + deterministic schedule "
                "replay of real std::threads through a yield hook (baton scheduler), exhaustive schedule prefixes for two threads x short programs"))
